@@ -111,6 +111,22 @@ fn run(route: &str, text: &str, lit: &str) -> Result<Result<String, String>, Str
             let b = conjure_serde::smile::to_vec(&parse!(u64)).map_err(e)?;
             conjure_serde::smile::client_from_slice::<Any>(&b).map_err(e)?.deserialize_into::<SafeLong>().map_err(e).and_then(ok)
         }
+        "smile_i128" => {
+            let b = conjure_serde::smile::to_vec(&parse!(i128)).map_err(e)?;
+            conjure_serde::smile::server_from_slice::<SafeLong>(&b).map_err(e).and_then(ok)
+        }
+        "smile_u128" => {
+            let b = conjure_serde::smile::to_vec(&parse!(u128)).map_err(e)?;
+            conjure_serde::smile::client_from_reader::<_, SafeLong>(&b[..]).map_err(e).and_then(ok)
+        }
+        "smile_any_u128" => {
+            let b = conjure_serde::smile::to_vec(&parse!(u128)).map_err(e)?;
+            conjure_serde::smile::client_from_slice::<Any>(&b).map_err(e)?.deserialize_into::<SafeLong>().map_err(e).and_then(ok)
+        }
+        "smile_list_u128" => {
+            let b = conjure_serde::smile::to_vec(&vec![parse!(u128)]).map_err(e)?;
+            conjure_serde::smile::server_from_slice::<Vec<SafeLong>>(&b).map_err(e).and_then(|v| ok(v[0]))
+        }
         other => return Err(format!("unknown route {other}")),
     })
 }
